@@ -1,4 +1,144 @@
-import AdfModel.Api
+/-
+  C17 — Initialised, reproducible output.
+  The model is a pure function of (configuration, state, operation): there is no notion of stray memory in it, so the
+  model-side content of C17 is what makes the comparison with the C code meaningful:
+   * `C17_disk_sectors_full`: in every state reachable by ANY program under ANY fault schedule every stored sector
+     has exactly 512 defined bytes (a short buffer is zero-padded, never completed from elsewhere);
+   * `C17_write_stores_padded`: what a successful write stores is `padTo data 512`, a function of the data alone;
+   * typed writers hand 512 bytes to the device whenever the struct image has 128 words;
+   * `C17_log_independent`: the outcome of a program (result, disk, memory, counters) does not depend on the
+     access log kept in the state — the only component of the state that is not API-visible input.
+  That the C library's bytes equal the model's for every history, and do so under differing heap/stack fill patterns
+  (pattern/zero builds, wrapped allocator poisoning), is the job of the check (tools/props/C17.py), not of a theorem.
+-/
+import AdfProofs.IoLemmas
+import AdfProofs.LogIndep
+import AdfProps.C03
 namespace Adf.C17
-theorem C17_placeholder : True := trivial
+open Adf
+
+def DiskFull (s : St) : Prop := ∀ n, (s.sector n).length = 512
+
+theorem padTo_length (b : Bytes) (n : Nat) : (padTo b n).length = n := by
+  unfold padTo; simp [List.length_take]
+
+theorem sector_insert (s : St) (p n : Nat) (b : Bytes) :
+    ({ s with disk := s.disk.insert p b } : St).sector n = if p = n then b else s.sector n := by
+  simp only [St.sector]
+  rw [Std.HashMap.getD_insert]
+  by_cases h : p = n
+  · simp [h]
+  · have : (p == n) = false := by simpa using h
+    simp [this, h]
+
+theorem devWriteRaw_diskFull (c : Cfg) (vol : Option Nat) (p size : Nat) (b : Bytes) (s : St) (h : DiskFull s) :
+    DiskFull (devWriteRaw c vol p size b s).2 := by
+  unfold devWriteRaw
+  have hs : ∀ n, s.tick.2.sector n = s.sector n := fun _ => rfl
+  generalize s.tick = t at hs ⊢
+  obtain ⟨fail, s'⟩ := t
+  simp only at hs ⊢
+  intro n
+  by_cases hf : fail = true
+  · rw [if_pos hf]; exact (hs n) ▸ h n
+  · rw [if_neg hf]
+    by_cases h2 : p * 512 + size > c.devSize
+    · rw [if_pos h2]; exact (hs n) ▸ h n
+    · rw [if_neg h2]
+      have := sector_insert { s' with trace := Ev.wr vol p size b 0 :: s'.trace } p n (padTo b 512)
+      have hsn := hs n
+      have hn := h n
+      simp only [St.sector] at this hsn hn ⊢
+      rw [this]
+      by_cases hp : p = n
+      · rw [if_pos hp]; exact padTo_length _ _
+      · rw [if_neg hp, hsn]; exact hn
+
+theorem devReadRaw_sector (c : Cfg) (vol : Option Nat) (p size : Nat) (s : St) (n : Nat) :
+    (devReadRaw c vol p size s).2.sector n = s.sector n := by
+  have := (devReadRaw_spec c vol p size s).1
+  simp only [St.sector, this]
+
+/-- every primitive keeps the disk made of full 512-byte sectors -/
+theorem prim_diskFull (c : Cfg) {β : Type} (pr : Prim β) (s : St) (h : DiskFull s) : DiskFull (runPrim c pr s).2 := by
+  cases pr with
+  | volRead v n =>
+    simp only [runPrim]
+    split
+    · exact h
+    · split
+      · exact h
+      · intro k; rw [devReadRaw_sector]; exact h k
+  | volWrite v n b =>
+    simp only [runPrim]
+    split
+    · exact h
+    · split
+      · exact h
+      · split
+        · exact h
+        · exact devWriteRaw_diskFull _ _ _ _ _ _ h
+  | devRead n size => simp only [runPrim]; intro k; rw [devReadRaw_sector]; exact h k
+  | devWrite n size b =>
+    simp only [runPrim]
+    split
+    · exact h
+    · exact devWriteRaw_diskFull _ _ _ _ _ _ h
+  | getCfg => exact h
+  | getMem => exact h
+  | setMem m => exact h
+  | now => exact h
+
+/-- **every stored sector has exactly 512 defined bytes**, in every state reachable by any program of the library
+    model under any fault schedule -/
+theorem C17_disk_sectors_full (c : Cfg) {α : Type} (p : Prog α) (s : St) (h : DiskFull s) : DiskFull (run c p s).2 :=
+  run_state_inv c DiskFull (fun pr s hs => prim_diskFull c pr s hs) p s h
+
+/-- the empty disk (every sector reads as 512 zero bytes) satisfies the invariant: the premise is reachable -/
+theorem C17_empty_disk_full : DiskFull ({} : St) := by
+  intro n
+  have : ({} : St).sector n = zeroBlock := by simp [St.sector]
+  rw [this]; unfold zeroBlock; exact List.length_replicate
+
+/-- what a successful block write stores depends on the data handed over and on nothing else -/
+theorem C17_write_stores_padded (c : Cfg) (v n : Nat) (b : Bytes) (s : St) :
+    ∃ rc s', run c (volWrite v n b) s = (.ok rc, s') ∧
+      (rc = rcOK → s'.disk = s.disk.insert (vsect c v n) (padTo b 512)) ∧ (rc ≠ rcOK → s'.disk = s.disk) := by
+  obtain ⟨rc, s', hr, _, h1, h2⟩ := run_volWrite_spec c v n b s
+  exact ⟨rc, s', hr, fun h => (h2 h).1, h1⟩
+
+/-- a struct image of 128 words always serialises to a full sector, with or without checksum / fixed fields -/
+theorem C17_struct_image_full (b : Blk) (h : b.length = 128) (k : Nat) :
+    (bytesOfBlk b).length = 512 ∧ (bytesOfBlk (withSum b k)).length = 512 := by
+  refine ⟨C03.C03_block_length b h, C03.C03_block_length _ ?_⟩
+  unfold withSum; rw [Blk.setW_length]; exact h
+
+/-- block images decoded from the device always have 128 words, so every read-modify-write cycle writes 512 bytes -/
+theorem C17_decoded_image_full (bytes : Bytes) (k : Nat) :
+    (bytesOfBlk (withSum (blkOfBytes bytes) k)).length = 512 := by
+  have : (blkOfBytes bytes).length = 128 := by
+    unfold blkOfBytes
+    have hl : (padTo bytes 512).length = 4 * 128 := padTo_length _ _
+    generalize padTo bytes 512 = bs at hl
+    clear bytes
+    have : ∀ (n : Nat) (b : Bytes), b.length = 4 * n → (wordsOf b).length = n := by
+      intro n
+      induction n with
+      | zero => intro b h; have : b = [] := List.eq_nil_of_length_eq_zero (by omega); subst this; rfl
+      | succ n ih =>
+        intro b h
+        match b, h with
+        | a :: b' :: c :: d :: rest, h =>
+          simp only [wordsOf, List.length_cons]
+          rw [ih rest (by simp at h; omega)]
+    exact this 128 bs hl
+  exact (C17_struct_image_full _ this k).2
+
+/-- the outcome of any program — result, disk, library memory, I/O counters — is the same from two states that
+    differ only in the access log: nothing the library writes can depend on anything but the API-visible inputs
+    (configuration, disk content, library memory, clock, fault schedule) -/
+theorem C17_log_independent (c : Cfg) {α : Type} (p : Prog α) (a b : St) (h : EqUpToLog a b) :
+    (run c p a).1 = (run c p b).1 ∧ EqUpToLog (run c p a).2 (run c p b).2 :=
+  run_log_independent c p a b h
+
 end Adf.C17
